@@ -112,8 +112,9 @@ def check_readers(ctx):
                 lambda e: _reads("last_sequence", "versions")(e) or is_call(e, "ldb_snaplist_new"),
                 "a snapshot's sequence is read and registered in one section", 2)
     sn = one_call(ctx, sp, "ldb_snaplist_new")[0][2]
-    sq = [key(e["rhs"]) for b, i, e in sp.events("asg") if key(e["lhs"]) == "seq"]
-    ctx.check(argkey(sn, 1) == "seq" and sq == ["db->versions->last_sequence"], "T6-capture-identity", "snapshot:sequence",
+    from ..rules import value_source
+    sq = value_source(sp, sn["a"][1])
+    ctx.check(sq == "db->versions->last_sequence", "T6-capture-identity", "snapshot:sequence",
               sp.name, site(sp, sn), "the snapshot records the sequence read in its section", "snapshot sequence is %s" % sq)
     ui = ctx.fn("ldb_iterator", DB)
     dc = one_call(ctx, ui, "ldb_dbiter_create")[0][2]
